@@ -492,6 +492,7 @@ impl<T: Elem + SatisfyTraits<Tr>, M: MX, Tr: TrX + ?Sized> World<T, M, Tr> {
             Edge::RawParts { variant, then } => self.do_raw_parts(variant, then, out),
             Edge::Bytes { variant: 6, k } => self.do_placement(k as usize * 8, out),
             Edge::Bytes { variant, k } => self.do_bytes(variant, k as usize, out),
+            Edge::Three { variant, a, b, rn, pat } => self.do_three(variant, ix(a), ix(b), rn as usize, pat, out),
             Edge::Cap(api, call, n) => self.do_cap(api, call, ix(n), out),
             Edge::CloneVec { then } => self.do_clone(then, out),
             Edge::CloneEmpty { then } => self.do_clone_empty(then, out),
@@ -844,7 +845,7 @@ pub fn edge_needs_b(e: &Edge) -> bool {
         Edge::Pop(_, s) | Edge::Remove(_, _, s) | Edge::SwapRemove(_, _, s) => matches!(s, Sink::MutMoveB | Sink::PushB | Sink::InsertB0 | Sink::LazyB(_)),
         Edge::Drain { sink, .. } => matches!(sink, Sink::MutMoveB | Sink::PushB | Sink::InsertB0 | Sink::LazyB(_)),
         Edge::Splice { sink, rsrc, .. } => matches!(sink, Sink::MutMoveB | Sink::PushB | Sink::InsertB0 | Sink::LazyB(_)) || matches!(rsrc, RSrc::BDrain | RSrc::LzRefs),
-        Edge::Lazy { .. } | Edge::ForgetRange { .. } | Edge::WriteRead { .. } | Edge::Swap { .. } | Edge::History { .. } => true,
+        Edge::Lazy { .. } | Edge::ForgetRange { .. } | Edge::WriteRead { .. } | Edge::Swap { .. } | Edge::History { .. } | Edge::Three { .. } => true,
         _ => false,
     }
 }
